@@ -145,6 +145,7 @@ type hist struct {
 	forced   []txSpec
 	db       dbm.DB
 	cp       *abci.ConsensusParams // given at InitChain (nil: none)
+	slotMates []key // validators that began unstaking in one block (one queue slot), in the order they were queued
 	stranded *key // a jailed, staked validator whose stake a parameter change has just put below the minimum
 	// genesis accounts whose recorded public key is somebody else's (address -> that key)
 	foreignKey map[string]key
@@ -1335,7 +1336,16 @@ func runHistory(r *rng.R, id, maxBlocks int, wo, wi *bufio.Writer) {
 		// ---- evidence (rare; may abort the block)
 		var evs []abci.Evidence
 		var eparts []string
-		if h.height > 2 && r.Chance(1, 10) {
+		mates := h.slotMates
+		h.slotMates = nil
+		if len(mates) == 2 {
+			v0, ok0 := h.validator(mates[0].addr)
+			v1, ok1 := h.validator(mates[1].addr)
+			if !(ok0 && ok1 && v0.status == 1 && v1.status == 1 && !h.tombstoned(mates[0].addr) && r.Chance(2, 3)) {
+				mates = nil
+			}
+		}
+		if h.height > 2 && (r.Chance(1, 10) || len(mates) == 2) {
 			k := h.pick()
 			skipEv := false
 			// mostly evidence the application can act on (known, not unstaked, not tombstoned);
@@ -1359,6 +1369,10 @@ func runHistory(r *rng.R, id, maxBlocks int, wo, wi *bufio.Writer) {
 				}
 				if len(un) > 0 && r.Chance(1, 2) {
 					k = un[0]
+				}
+				if len(mates) == 2 { // the validator queued first of two that share a slot
+					k = mates[0]
+					stats["evidence/against-the-first-of-two-in-one-queue-slot"]++
 				}
 				if len(cands) == 0 && r.Chance(7, 8) {
 					skipEv = true // nobody to convict: unusable evidence would only end the history here
@@ -1507,6 +1521,23 @@ func runHistory(r *rng.R, id, maxBlocks int, wo, wi *bufio.Writer) {
 				}
 			}
 			h.handover = nil
+			// two validators in one slot of the unstaking queue: right after an accepted begin-unstake another staked validator
+			// begins unstaking in the same block (same completion time); evidence against the one queued FIRST follows
+			if res.Code == 0 && strings.HasPrefix(t.spec, "unstake:") && len(h.forced) == 0 && r.Chance(1, 5) {
+				first := h.keyOf(t.msg.GetSigner(), t.signer)
+				for _, c := range h.keys {
+					if v, ok := h.validator(c.addr); ok && v.status == 2 && !v.jailed && len(c.subs) == 0 && !c.addr.Equals(first.addr) {
+						cc := c
+						ft := txSpec{signer: cc, attached: &cc, wrongSub: -1}
+						ft.msg = posTypes.MsgBeginUnstake{Address: c.addr}
+						ft.spec = "unstake:" + hx(c.addr)
+						h.forced = append(h.forced, ft)
+						h.slotMates = []key{first, cc}
+						stats["tx/second-unstake-in-the-same-block"]++
+						break
+					}
+				}
+			}
 			if res.Code == 0 && strings.Contains(t.spec, ":"+hx([]byte("pos/StakeMinimum"))+":") {
 				// the minimum has just changed: a staked validator that is now below it asks to begin unstaking (must be
 				// refused without a trace, or handled, but never half-way)
